@@ -90,6 +90,36 @@ def parseOutPayload : List String → Option OutPayload
     pure (.native (← parseInt sumq) ⟨← parseInt schema, ← parseNat zc, ← parseNat count, ← parseBuckets pos, ← parseBuckets neg⟩)
   | _ => none
 
+def splitOnChar (c : Char) (s : String) : List String := s.splitOn (String.singleton c)
+
+/-- `<q>/<kvs>/<trace hex text>/<span hex text>` -/
+def parseExemplar (s : String) : Option Exemplar :=
+  match splitOnChar '/' s with
+  | [q, kvs, t, sp] => do pure ⟨← parseInt q, ← parseKVs kvs, ← parseHex t, ← parseHex sp⟩
+  | _ => none
+
+def parseSlot (s : String) : Option Slot :=
+  if s == "c" then some .counter else if s == "inf" then some .inf else (parseInt s).map .bucket
+def renderSlot : Slot → String
+  | .counter => "c" | .inf => "inf" | .bucket bd => s!"{bd}"
+
+/-- `<slot>/<q>/<kvs>` -/
+def parseExOut (s : String) : Option ExOut :=
+  match splitOnChar '/' s with
+  | [sl, q, kvs] => do pure ⟨← parseSlot sl, ← parseInt q, ← parseKVs kvs⟩
+  | _ => none
+def renderExOut (e : ExOut) : String := s!"{renderSlot e.slot}/{e.q}/{renderKVs e.labels}"
+
+/-- optional trailing token `E:<item>;<item>…` of a P or M group -/
+def splitE (toks : List String) : List String × Option String :=
+  match toks.reverse with
+  | t :: rest => if t.startsWith "E:" then (rest.reverse, some (t.drop 2).toString) else (toks, none)
+  | [] => (toks, none)
+
+def parseEList {α} (f : String → Option α) : Option String → Option (List α)
+  | none => some []
+  | some s => (splitOnChar ';' s).mapM f
+
 /-- groups after the header → scopes (S/I/P groups) -/
 def parseScopes : List (List String) → List Scope → Option (List Scope)
   | [], acc => some acc.reverse
@@ -109,7 +139,8 @@ def parseScopes : List (List String) → List Scope → Option (List Scope)
       | s :: rest =>
         match s.insts.reverse with
         | i :: irest => do
-          let p : Point := ⟨← parseKVs kvs, ← parsePayload payload⟩
+          let (payload, e) := splitE payload
+          let p : Point := ⟨← parseKVs kvs, ← parsePayload payload, ← parseEList parseExemplar e⟩
           parseScopes gs ({ s with insts := (({ i with points := i.points ++ [p] }) :: irest).reverse } :: rest)
         | [] => none
       | [] => none
@@ -125,7 +156,8 @@ def parseFams : List (List String) → List Family → Option (List Family)
     | "M" :: kvs :: payload =>
       match acc with
       | f :: rest => do
-        let s : Series := ⟨← parseKVs kvs, ← parseOutPayload payload⟩
+        let (payload, e) := splitE payload
+        let s : Series := ⟨← parseKVs kvs, ← parseOutPayload payload, ← parseEList parseExOut e⟩
         parseFams gs ({ f with series := f.series ++ [s] } :: rest)
       | [] => none
     | _ => none
@@ -135,7 +167,9 @@ def insertBy {α} (le : α → α → Bool) (x : α) : List α → List α
   | y :: ys => if le x y then x :: y :: ys else y :: insertBy le x ys
 def sortBy {α} (le : α → α → Bool) (l : List α) : List α := l.foldr (insertBy le) []
 
-def renderSeries (s : Series) : String := s!"M {renderKVs s.labels} {renderOutPayload s.payload}"
+def renderSeries (s : Series) : String :=
+  s!"M {renderKVs s.labels} {renderOutPayload s.payload}" ++
+    (if s.ex.isEmpty then "" else " E:" ++ ";".intercalate (s.ex.map renderExOut))
 
 def renderFams (err : Bool) (fams : List Family) : String :=
   let fams := sortBy (fun a c => bytesLe a.name c.name) fams
@@ -269,7 +303,15 @@ def stepE2E (flags nsTok resTok : String) (groups : List (List String)) (obs : L
   let names := insts.map (fun si => Spec.refName esc cfg si.2.name si.2.unit si.2.dtype.mtype)
   let conflict := names.eraseDups.length < names.length
   let merged := legacy && insts.any (fun si => si.2.points.any (fun p => (getAttrsLegacy esc p.attrs).length < p.attrs.length))
-  let br := dts ++ tag legacy "legacy" ++ tag conflict "same-family" ++ tag merged "merged" ++ tag sc.noScope "noscope" ++
+  let pts := insts.flatMap (fun si => si.2.points.map (fun p => (si.2.dtype, p)))
+  let exPts := pts.filter (fun dp => !dp.2.exemplars.isEmpty && (dp.1 == DType.sumMono || dp.1 == DType.hist))
+  let exRej := exPts.any (fun dp => (promExemplars esc legacy dp.2.exemplars).isNone)
+  let exAcc := exPts.any (fun dp => (promExemplars esc legacy dp.2.exemplars).isSome)
+  let exInf := exPts.any (fun dp => match dp.2.payload with
+    | .hist _ _ bounds _ => dp.2.exemplars.any (fun e => bucketSlot bounds e.q == Slot.inf)
+    | _ => false)
+  let br := dts ++ tag exAcc "exemplar-accepted" ++ tag exRej "exemplar-rejected" ++ tag exInf "exemplar-inf" ++
+    tag legacy "legacy" ++ tag conflict "same-family" ++ tag merged "merged" ++ tag sc.noScope "noscope" ++
     tag sc.noTarget "notarget" ++ tag sc.resConst "resconst" ++ tag (cfg.ns != []) "ns" ++ tag (scopes.length > 1) "scopes2"
   pure { agree := ms == " ".intercalate obs, spec := spec, nontrivial := !insts.isEmpty, branches := tags br, model := ms }
 
